@@ -1,5 +1,6 @@
 //! C08 (buffering half) / C11 (retained bytes) / C01 (reader totality) — TlsClientHelloReader.
-//! `parse_tls_client_hello` (tls-parser, out of reach) is replaced by a call recorder, so what is
+//! `parse_tls_client_hello` (tls-parser, out of reach) is replaced by a call recorder (through the
+//! verif hook `set_parser_override`, so that the native replay runs the same recorder), so what is
 //! decided is exactly when the reader hands which bytes to the parser, what it returns before
 //! that, and how many bytes it retains.
 use huginn_net_tls::error::HuginnNetTlsError;
@@ -28,6 +29,12 @@ pub fn stub_parse(data: &[u8]) -> Result<Option<Signature>, HuginnNetTlsError> {
             Err(HuginnNetTlsError::Parse(String::with_capacity(1)))
         }
     }
+}
+
+/// install the recorder in place of the tls-parser based parser (hook `set_parser_override`: the
+/// same replacement is active in the model checker and in the native replay)
+fn install_recorder() {
+    huginn_net_tls::tls_process::verif_hooks::set_parser_override(Some(stub_parse));
 }
 
 fn calls() -> u32 {
@@ -70,6 +77,7 @@ fn step<const B: usize, const D: usize>() {
         let declared = u16::from_be_bytes([prefix[3], prefix[4]]) as usize;
         kani::assume(prefix[0] != 0x16 || B < declared + 5);
     }
+    install_recorder();
     let mut r = TlsClientHelloReader::verif_with_buffer(&prefix);
     let res = r.add_bytes(&chunk);
     let handshake = total >= 5 && all[0] == 0x16;
@@ -113,7 +121,6 @@ fn step<const B: usize, const D: usize>() {
 macro_rules! step_harness {
     ($name:ident, $b:expr, $d:expr) => {
         #[kani::proof]
-        #[kani::stub(huginn_net_tls::tls_process::parse_tls_client_hello, stub_parse)]
         #[kani::stub(alloc::fmt::format, crate::util::stub_format)]
         #[kani::unwind(40)]
         pub fn $name() {
@@ -142,6 +149,7 @@ fn fresh<const D: usize>() {
         PARSER_VERDICT = kani::any::<u8>() & 1;
         PROBE_IDX = probe;
     }
+    install_recorder();
     let mut r = TlsClientHelloReader::new();
     let res = r.add_bytes(&chunk);
     let handshake = D >= 5 && chunk[0] == 0x16;
@@ -169,7 +177,6 @@ fn fresh<const D: usize>() {
 macro_rules! fresh_harness {
     ($name:ident, $d:expr) => {
         #[kani::proof]
-        #[kani::stub(huginn_net_tls::tls_process::parse_tls_client_hello, stub_parse)]
         #[kani::stub(alloc::fmt::format, crate::util::stub_format)]
         #[kani::unwind(40)]
         pub fn $name() {
